@@ -54,6 +54,29 @@ add(
     "3/C08",
 )
 
+add(
+    "C02",
+    "The real Optimizer.calculate_penalty -> OptimizationGroup -> Data/Matrix/EstimationProvider pipeline is executed on "
+    "symbolic data, weights, matrix entries, scales and relation/penalty parameters; every (matrix, data) pair handed to "
+    "the linear solver is proved equal, column by column, to an independently written specification of the scaled, "
+    "weighted, reduced, stacked problem, and the penalty vector to the residual symbols in order followed by the "
+    "equal-area penalties; every data symbol occurs in exactly one problem; groups share no symbol.",
+    COMMON_NOTE + "Coordinates and interval bounds concrete per configuration; the linear solver is a recording "
+    "functional stub (optimality is C01).",
+    "3/C02",
+)
+add(
+    "C03",
+    "Continuation of the C02 run through create_result_data with free symbols for the solver's clps and residuals "
+    "(noisy data): per dataset, coordinate and label the result arrays are proved equal to the specification "
+    "(residual, weighted_residual = weight x residual, clp by label incl. zero/related clps, matrix by label, "
+    "data = fitted + residual, fitted = scale x matrix x clp resp. matrix x clp x global_matrix^T with the solver's "
+    "residual identity substituted), for dataset labels that are substrings of each other, (global, model) storage, "
+    "non-square data, single-dataset aligned indices.",
+    COMMON_NOTE + "As C02; weights non-zero.",
+    "3/C03",
+)
+
 ALL = [f"C{i:02d}" for i in range(1, 21)]
 
 
